@@ -160,6 +160,14 @@ def level_families():
     gs = [S([[0, 0], [1, 0]], [3, -1]), S([[1, 0], [0, 0]], [1, '-1/4']), S([[0, 0], [0, 1]], [3, -1]), S([[0, 1], [0, 0]], [1, '-1/4'])]
     for lv in ((0, 2, 0), (1, 1, 0)):
         out.append({'kind': 'sig', 'f': fs, 'gts': gs, 'eqs': [], 'X': 'none', 'via_X_only': False, 'p': lv[0], 'q': lv[1], 'ell': lv[2]})
+    # EQUALITY-ONLY problems (the inequality list is empty): every returned point must still satisfy the equalities
+    circ = S([[2, 0], [0, 2], [0, 0]], [1, 1, -1])
+    out.append({'kind': 'sig', 'f': S([[1, 0], [0, 1]], [-1, -1]), 'gts': [], 'eqs': [circ], 'X': 'none', 'via_X_only': False, 'p': 0, 'q': 1, 'ell': 0})
+    out.append({'kind': 'sig', 'f': S([[1, 0], [0, 1]], [-1, -1]), 'gts': [], 'eqs': [circ], 'X': 'none', 'via_X_only': False, 'p': 0, 'q': 1, 'ell': 1})
+    out.append({'kind': 'sig', 'f': S([[2, 0], [0, 2]], [1, 1]), 'gts': [], 'eqs': [S([[1, 1], [0, 0]], [1, -1])], 'X': 'none', 'via_X_only': False,
+                'p': 0, 'q': 1, 'ell': 0})
+    out.append({'kind': 'poly', 'f': P([[2, 0], [0, 2], [1, 0]], [1, 1, -3]), 'gts': [], 'eqs': [P([[1, 1], [1, 0], [0, 0]], [1, 1, -2])],
+                'X': 'none', 'via_X_only': False, 'p': 1, 'q': 1, 'ell': 0})
     return out
 
 
